@@ -7,13 +7,13 @@
 From Irismod Require Import Genesis.Store.
 (** No free-standing invariant:
 
-    For record, coinswap, random and nft the reachability invariant [invb] is DERIVED from the other groups'
+    For record, coinswap, random, nft and mt the reachability invariant [invb] is DERIVED from the other groups'
     message-level models ([Genesis/Link<Mod>.v]): an abstraction [abs] maps a state of that model to the
     genesis-level state (renaming ids by an injective numbering, sorting the stores the way the KV store
     iterates), and [reachable_<mod>] proves [invb (abs (run h)) = true] for every history [h] from that
     model's proved invariants (plus small extra invariants proved over its step function).  The C12
     statements then quantify over histories. *)
-From Irismod Require Genesis.LinkRecord Genesis.LinkCoinswap Genesis.LinkRandom Genesis.LinkNft.
+From Irismod Require Genesis.LinkRecord Genesis.LinkCoinswap Genesis.LinkRandom Genesis.LinkNft Genesis.LinkMt.
 
 Module LinkRecordC12.
 Import Genesis.LinkRecord.
@@ -110,3 +110,30 @@ Proof. exact LinkNft.nft_history_roundtrip. Qed.
 Print Assumptions nft_history_roundtrip.
 End LinkNftC12.
 
+
+(** ** mt: [invb] derived from the message-level model of the nftmt group ([Mt/Model.v], [Mt/Proofs.v],
+    [Mt/Export.v]). [Reachable64 s] = [s] is the state after a history of fewer than 2^64 - 1 steps from the
+    empty state (the bound under which the uint64 sequences do not wrap). *)
+Module LinkMtC12.
+Import Genesis.LinkMt.
+
+Theorem reachable_mt : forall s : M.state, MP.Reachable64 s -> G.invb (abs s) = true.
+Proof. exact LinkMt.reachable_mt. Qed.
+Print Assumptions reachable_mt.
+
+Theorem mt_history_export_validates :
+  forall s : M.state, MP.Reachable64 s -> G.validate false (G.export (abs s)) = true.
+Proof. exact LinkMt.mt_history_export_validates. Qed.
+Print Assumptions mt_history_export_validates.
+
+Theorem mt_history_roundtrip :
+  forall s : M.state, MP.Reachable64 s -> G.import false (G.export (abs s)) = Some (GP.norm (abs s)).
+Proof. exact LinkMt.mt_history_roundtrip. Qed.
+Print Assumptions mt_history_roundtrip.
+
+Theorem mt_history_fixpoint_and_queries :
+  forall s : M.state, MP.Reachable64 s ->
+  exists s', G.import false (G.export (abs s)) = Some s' /\ G.export s' = G.export (abs s) /\ G.queries s' = G.queries (abs s).
+Proof. exact LinkMt.mt_history_fixpoint_and_queries. Qed.
+Print Assumptions mt_history_fixpoint_and_queries.
+End LinkMtC12.
